@@ -24,6 +24,7 @@ F_X64 = 'C09-overlap-save-float32-x64'
 F_SIZE = 'C09-fft-size-batched-bands'
 
 RealArr = z3.ArraySort(z3.IntSort(), z3.RealSort())
+STATE: dict = {}      # facts established by earlier scenarios of this run and used by later callee contracts
 
 
 def theory():
@@ -224,6 +225,8 @@ def build2(ck, T):
         T.fori_invariants['SymmetricBandToeplitzOperator._apply_overlap_save.func'] = F
         o = S.new('SymmetricBandToeplitzOperator', method='overlap_save', fft_size=N)
         out = S.call(S.I.getattr(o, '_apply_overlap_save'), [R.x, R.band])
+        if bad and out.raised('TypeError'):
+            STATE['overlap_save_raises_TypeError_for_float32_under_x64'] = True
         if no_exception(S, out, finding=S.finding):
             check_filtered(S, R, out.value, finding=S.finding)
     ck.explore(f'{CLS}._apply_overlap_save', overlap_save, T)
@@ -291,7 +294,22 @@ def build3(ck, T):
                 return True
             if not isinstance(out, E.Arr):
                 return False
-            return z3.And(*[g for _, g in E.arr_eq_goals(out, F(L.k, L.old('output')), rc=(R.n, R.n))])
+
+            def hint(r, c, w, qs, member):
+                """which q can hit (r, c) on the diagonal j = c - r walked in this iteration (pure integer arithmetic,
+                an instance of row-major uniqueness): q = r for j >= 0 (start (0, j)), q = c for j < 0 (start (-j, 0))"""
+                j = to_z3(L.var('j')) if L.has('j') else None
+                if j is None or not z3.eq(z3.simplify(to_z3(w)), R.n):
+                    return []
+                rng = z3.And(0 <= to_z3(r), to_z3(r) < R.n, 0 <= to_z3(c), to_z3(c) < R.n, member)
+                return [('scatter-index-hits-only-its-diagonal',
+                         z3.Implies(rng, z3.If(j >= 0, z3.And(qs == r, to_z3(c) == to_z3(r) + j),
+                                               z3.And(qs == c, to_z3(r) == to_z3(c) - j))))]
+            T.at_set_hint = hint
+            try:
+                return z3.And(*[g for _, g in E.arr_eq_goals(out, F(L.k, L.old('output')), rc=(R.n, R.n))])
+            finally:
+                T.at_set_hint = None
 
         spec = LoopSpec(invariant, lambda L: L.set('output', F(L.k, L.old('output'))))
         S.I.loop_specs[(DENSE, 0)] = spec
@@ -343,8 +361,15 @@ def build3(ck, T):
             length and dtype, equal to T(band) x.  Represented by a provenance marker.  overlap_save: TypeError
             in the class of finding (b)."""
             _self, x, band = args
-            if method == 'overlap_save' and interp.run.branch(z3.And(E.X64, x.dtype == E.F32)):
-                interp.raise_('TypeError', 'finding (b)')
+            if method == 'overlap_save':
+                fs = _self.fields.get('fft_size')
+                if fs is None:
+                    interp.raise_('AssertionError')
+                E.ob(interp, 'pre', 'overlap-save-fft-size-admissible', to_z3(fs) >= 2 * E.zi(band.length) - 1)
+                # what scenario `overlap_save` found for float32 input under x64 (finding (b) while it is open)
+                if STATE.get('overlap_save_raises_TypeError_for_float32_under_x64') and \
+                        interp.run.branch(z3.And(E.X64, x.dtype == E.F32)):
+                    interp.raise_('TypeError', 'finding (b)')
             return E.Arr(x.length, x.dtype, note=('applied', method, x, band))
         return contract
     mv_contracts = {f'{CLS}._apply_{m}': marker(m) for m in ('dense', 'direct', 'fft', 'overlap_save', 'overlap_add')}
@@ -368,6 +393,8 @@ def build3(ck, T):
         if bad:
             S.oracle = {'name': 'finding_x64_float32'}
         N = S.int('fft_size') if method == 'overlap_save' else None
+        if N is not None:
+            S.assume(N >= 2 * R.K - 1)          # class invariant established by the constructor
         x = E.Batched(xs, R.x, b0)
         band = E.Batched(bs, R.band, b0)
         o = S.new('SymmetricBandToeplitzOperator', method=method, fft_size=N, band_values=band,
@@ -381,8 +408,10 @@ def build3(ck, T):
         if not ok:
             return
         kind, m2, xr, br = y.core.note
-        S.oblige('post', m2 == method and xr is R.x and br is R.band and z3.eq(y.bidx, b0),
-                 tag='row-b-of-output-is-_apply_<method>(row-b-of-x,row-b-of-band)', finding=S.finding)
+        # any of the four kernels proved to return T x may serve any method name
+        S.oblige('post', kind == 'applied' and m2 in ('dense', 'direct', 'fft', 'overlap_save') and xr is R.x
+                 and br is R.band and z3.eq(y.bidx, b0),
+                 tag='row-b-of-output-is-a-verified-kernel-applied-to-(row-b-of-x,row-b-of-band)', finding=S.finding)
         S.oblige('post', y.bshape == xs, tag='output-batch-shape-is-input-batch-shape', finding=S.finding)
         S.oblige('post', z3.And(E.zi(y.core.length) == R.n, y.core.dtype == R.xdt), tag='output-row-length-and-dtype',
                  finding=S.finding)
@@ -442,5 +471,6 @@ _build1 = build
 
 
 def build(ck):          # noqa: F811
+    STATE.clear()
     _build1(ck)
     build3(ck, theory())
